@@ -4,10 +4,12 @@ from vf.core import cZ, cbool, clist, cpair
 PID = "C14"
 MODULES = ["Prelude", "Sched", "C14_Model", "C14_Spec", "C14_Check"]
 PROPS_MODULE = "C14_Properties"
-THEOREMS = ["C14_pop_stable", "C14_strict", "C14_strict_sync", "C14_concurrent", "C14_unordered", "C14_wrap", "C14_spec_strict", "C14_request_level_even"]
+THEOREMS = ["C14_pop_stable", "C14_strict", "C14_strict_sync", "C14_concurrent", "C14_unordered", "C14_wrap", "C14_spec_strict", "C14_request_level_even",
+            "C14_idempotent_status_write_invisible"]
 EVAL = "C14_Check.eval"
 CLAUSES = ["agree", "only_ready", "strict", "unordered", "wrap", "conc_strict", "req_strict"]
 COQ_SHARD = 60
+HARNESS_CHUNK = 80
 RULE = ("request cases: distinct (subset, ready, request/limit op list) sent through the real dispatcher in which forwarded "
         "requests reached at least two different endpoints; rr cases: distinct (ready list, mode, upstream order, N) with at least 2 ready endpoints and N >= 2k picks; "
         "history cases: distinct op lists in which the ready set changes between two picks that both see >= 2 ready "
@@ -18,6 +20,9 @@ TRUSTED_BASE = [
     "MatchAttributes + Pop; the uint64 wrap is reached by storing a counter through an add-only export)",
     "request-level cases go through the real proxy handler chain (filters + dispatcher.ServeHTTP) to k stub TLS upstreams that "
     "record which endpoint received each forwarded request",
+    "endpointStatus.SetStatus is instrumented (its Lock / Unlock become schedule points) so that the real status write can be "
+    "parked while it holds the status lock and a pick is made at that moment; the pick then has 25 ms to return before the "
+    "write is allowed to finish (code that waits for the writer is unaffected by the length of that pause)",
     "Pop is instrumented from the CURRENT clusterinfo.go by lib/vf/instrument.py (atomic.AddUint64 and every sync.Map operation "
     "on `loadbalancer` -> yield + the operation) and "
     "replayed under the cooperative scheduler harness/common/sched.go for the concurrent cases",
@@ -41,9 +46,9 @@ LABEL_MAP = "Pop:s.cluster.loadbalancer.LoadOrStore"
 TWO64 = 2 ** 64
 
 
-def rr(servers, ready, subset, all_, n, force=None, disabled=(), resync=0):
+def rr(servers, ready, subset, all_, n, force=None, disabled=(), resync=0, writes=0):
     c = {"kind": "rr", "servers": servers, "ready": ready, "subset": subset, "all": all_, "n": n,
-         "disabled": list(disabled), "resync": resync}
+         "disabled": list(disabled), "resync": resync, "writes": writes}
     if force:
         c["force"] = {"es": force[0], "v": str(force[1])}
     return c
@@ -87,6 +92,14 @@ def corpus():
         for every in (2, 1, 3):
             cs.append(rr([0, 1, 2, 3, 4], [0, 1, 2, 3, 4], sub, False, 24, disabled=dis, resync=every))
     cs.append(rr([0, 1, 2, 3], [0, 1, 2, 3], [], True, 30, disabled=[3], resync=2))
+    # picks made WHILE the health checker records an unchanged result (the real SetStatus parked holding the
+    # status lock): the ready set is what it was, so the strict clause applies to every window
+    for k in (2, 3, 4, 5):
+        srv = list(range(k))
+        for every in (1, 2, 3):
+            cs.append(rr(srv, srv, srv, False, 4 * k, writes=every))
+    cs.append(rr([0, 1, 2, 3], [0, 1, 2], [2, 0, 1, 3], False, 12, disabled=[3], resync=2, writes=2))
+    cs.append(rr([0, 1, 2], [0, 1, 2], [], True, 12, writes=2))
     cs.append(rr([0, 1, 2, 3], [0, 1, 3], [3, 2, 9, 0, 1], False, 20))       # unready + unknown endpoint in the subset
     cs.append(rr([0, 1, 2], [], [0, 1, 2], False, 3))                          # nothing ready
     cs.append(rr([0, 1, 2], [1], [0, 1, 2], False, 5))                         # one ready: fast path
@@ -156,7 +169,11 @@ def gen_rr(rng):
         # as long as two stay ready
         pool = [x for x in servers if x not in ready] + rng.shuffle(ready)[:max(0, len(ready) - 2)]
         disabled = pool[:nd]
-    return rr(servers, ready, subset, all_, n, force, disabled, resync)
+    writes = 0
+    if rng.chance(1, 4):
+        writes = rng.choice([1, 2, 2, 3])
+        n = min(n, rng.choice([8, 12, 16, 20]))     # every such pick waits for the writer (25 ms)
+    return rr(servers, ready, subset, all_, n, force, disabled, resync, writes)
 
 
 def gen_hist(rng):
@@ -175,6 +192,8 @@ def gen_hist(rng):
             ops.append({"op": "pick", "all": rng.chance(1, 4)})
         elif r < 85:
             ops.append({"op": "ready", "e": rng.randint(0, 6) if rng.chance(1, 4) else rng.below(ns), "b": rng.chance(4, 5)})
+            if rng.chance(1, 2):       # the same result recorded again: changes nothing
+                ops.append(dict(ops[-1]))
         elif r < 91:
             if rng.chance(3, 5):
                 # servers and disabled flags as they are: identical object or unrelated edits
@@ -349,7 +368,8 @@ def nontrivial_key(case, obs):
             return None
         rd = [e for e in picks[0]["order"] if e in case["ready"] and e in case["servers"] and e not in case.get("disabled", [])]
         if len(rd) >= 2 and len(picks) >= 2 * len(rd):
-            return ("r", tuple(rd), case["all"], len(picks), case.get("resync", 0), tuple(case.get("disabled", [])), case.get("force", {}).get("v") if case.get("force") else None,
+            return ("r", tuple(rd), case["all"], len(picks), case.get("resync", 0), case.get("writes", 0),
+                    tuple(case.get("disabled", [])), case.get("force", {}).get("v") if case.get("force") else None,
                     tuple(tuple(p["order"]) for p in picks[:50]))
         return None
     if k == "hist":
@@ -380,6 +400,7 @@ def stats(case, obs):
         return ["rr:%s" % ("all" if case["all"] else "explicit"), "rr:k=%d" % nr, "rr:orders=%d" % min(P, 9),
                 "rr:N<=%d" % (10 if n <= 10 else 100 if n <= 100 else 1000 if n <= 1000 else 5000)] + \
                (["rr:forced-cursor"] if case.get("force") else []) + \
+               (["rr:pick-during-noop-status-write-every-%d" % case["writes"]] if case.get("writes") else []) + \
                (["rr:resync-every-%d" % case["resync"], "rr:disabled=%d" % len(case.get("disabled", []))] if case.get("resync") else [])
     if k == "hist":
         labs = ["hist:len<=%d" % (10 * ((len(case["ops"]) + 9) // 10))]
